@@ -126,6 +126,9 @@ type Machine struct {
 	ModelHits   int
 	pcSet       map[*smt.Term]bool
 	usedUF      bool
+	sec         *secretState // rt.Secret: secret variables of this path (secret.go)
+	SecretSinks int          // text-sink operands examined on this path while a secret was registered
+	SecretFlows int          // of those, operands that mention a secret (each one a solver obligation)
 	s256obj     *Object
 	decCache    map[*smt.Term][]*smt.Term
 	softLimit   int64
@@ -204,6 +207,8 @@ func (m *Machine) RunPath(entry *ssa.Function, prefix []int64, pushAlt func([]in
 	m.model, m.modelMemo = nil, nil
 	m.pcSet = map[*smt.Term]bool{}
 	m.usedUF = false
+	m.sec = nil
+	m.SecretSinks, m.SecretFlows = 0, 0
 	m.decCache = nil
 	m.oncePath = map[*Object]bool{}
 	m.nondets = nil
